@@ -228,6 +228,7 @@ pub fn case_c04(d: &[u8]) -> c04::Case {
         fault,
         first_step: r.opt(2, |r| r.log10(-3.0, 0.0)),
         max_step: r.opt(2, |r| r.log10(-2.0, 0.5)),
+        min_step: r.opt(1, |r| r.log10(-9.0, -2.0)),
     }
 }
 
